@@ -828,12 +828,18 @@ def putcopy_exec(run, vm, maxn=3):
             if c_.get('n') == 'COPIED':
                 COPIED = c_.get('v')
     h = vm.handlers['put_copy']
+    from .util import setter_field
+    # members by role (the field each one-argument accessor stores into), so that a renamed member is still the same member
+    F = {'next': setter_field(fx, PS + 'next', PS + 'm_next'), 'prev': setter_field(fx, PS + 'prev', PS + 'm_prev'), 'index': setter_field(fx, PS + 'index', PS + 'm_index'),
+         'before': setter_field(fx, PS + 'before', PS + 'm_before'), 'after': setter_field(fx, PS + 'after', PS + 'm_after'), 'original': setter_field(fx, PS + 'originate', PS + 'm_original'),
+         'parent': setter_field(fx, PS + 'attachTo', PS + 'm_parent'), 'child': setter_field(fx, PS + 'firstChild', PS + 'm_child'), 'sibling': setter_field(fx, PS + 'nextSibling', PS + 'm_sibling'),
+         'attrs': setter_field(fx, PS + 'userAttrs', PS + 'm_userAttr')}
 
     def mkslot(k):
         s_ = O.Rec()
         for f in srec['fields']:
             s_[PS + f['n']] = O.Ptr(None) if f.get('ptr') else 0
-        s_[PS + 'm_userAttr'] = O.It(O.Vec([k * 10 + 1, k * 10 + 2]), 0)
+        s_[F['attrs']] = O.It(O.Vec([k * 10 + 1, k * 10 + 2]), 0)
         s_['#'] = k
         return s_
 
@@ -860,15 +866,15 @@ def putcopy_exec(run, vm, maxn=3):
                     for att in (False, True):
                         slots = [mkslot(i) for i in range(n)]
                         for i, sl in enumerate(slots):
-                            sl[PS + 'm_next'] = O.Ptr(slots[i + 1]) if i + 1 < n else O.Ptr(None)
-                            sl[PS + 'm_prev'] = O.Ptr(slots[i - 1]) if i else O.Ptr(None)
-                            sl[PS + 'm_before'] = sl[PS + 'm_after'] = sl[PS + 'm_original'] = sl[PS + 'm_index'] = i
+                            sl[F['next']] = O.Ptr(slots[i + 1]) if i + 1 < n else O.Ptr(None)
+                            sl[F['prev']] = O.Ptr(slots[i - 1]) if i else O.Ptr(None)
+                            sl[F['before']] = sl[F['after']] = sl[F['original']] = sl[F['index']] = i
                         parent = mkslot(50)
                         if att:
-                            slots[j][PS + 'm_parent'] = O.Ptr(parent)
-                            parent[PS + 'm_child'] = O.Ptr(slots[j])
+                            slots[j][F['parent']] = O.Ptr(parent)
+                            parent[F['child']] = O.Ptr(slots[j])
                         slots[j][PS + 'm_flags'] = fl
-                        own_attrs = slots[k][PS + 'm_userAttr']
+                        own_attrs = slots[k][F['attrs']]
                         seg = O.Rec({PG + 'm_first': O.Ptr(slots[0]), PG + 'm_last': O.Ptr(slots[-1]), PG + 'm_numGlyphs': n, PG + 'm_defaultOriginal': 0})
                         mapvec = O.Vec([O.Ptr(None)] + [O.Ptr(s_) for s_ in slots] + [O.Ptr(None)] * 2)
                         smap = O.Rec({PM + 'segment': seg, PM + 'm_slot_map': O.It(mapvec, 0), PM + 'm_precontext': 0, PM + 'm_size': n,
@@ -893,19 +899,19 @@ def putcopy_exec(run, vm, maxn=3):
                             return cases, ('%s: the current slot ends up marked %s -- it is still linked into the stream, and SlotMap::collectGarbage frees every marked slot of the map: the stream then '
                                            'runs into the free list' % (desc, 'DELETED' if me[PS + 'm_flags'] & DEL else 'COPIED'))
                         wn, wp = (slots[k + 1] if k + 1 < n else None), (slots[k - 1] if k else None)
-                        if me[PS + 'm_next'].rec is not wn or me[PS + 'm_prev'].rec is not wp or me[PS + 'm_index'] != k:
+                        if me[F['next']].rec is not wn or me[F['prev']].rec is not wp or me[F['index']] != k:
                             return cases, '%s: the current slot\'s place in the stream changes (next / prev / index)' % desc
-                        if me[PS + 'm_userAttr'] is not own_attrs and not (isinstance(me[PS + 'm_userAttr'], O.It) and me[PS + 'm_userAttr'].vec is own_attrs.vec):
+                        if me[F['attrs']] is not own_attrs and not (isinstance(me[F['attrs']], O.It) and me[F['attrs']].vec is own_attrs.vec):
                             return cases, '%s: the current slot now uses the source\'s user-attribute block' % desc
-                        if me[PS + 'm_child'].rec is not None or me[PS + 'm_sibling'].rec is not None:
+                        if me[F['child']].rec is not None or me[F['sibling']].rec is not None:
                             return cases, '%s: the current slot inherits the source\'s child / sibling links' % desc
-                        par = me[PS + 'm_parent'].rec
+                        par = me[F['parent']].rec
                         if par is not None:
-                            c_, seen = par[PS + 'm_child'].rec, 0
+                            c_, seen = par[F['child']].rec, 0
                             found = False
                             while c_ is not None and seen < 8:
                                 found = found or c_ is me
-                                c_ = c_[PS + 'm_sibling'].rec
+                                c_ = c_[F['sibling']].rec
                                 seen += 1
                             if not found:
                                 return cases, '%s: the current slot names #%d as its parent but is not in its child chain' % (desc, par['#'])
